@@ -307,15 +307,18 @@ def trace_config(rng, ns, k):
     for _ in range(n):
         arr = rng.randint(0, horizon)
         sess.append({"arr": arr, "dep": arr + rng.randint(1, 6),
-                     "req": rng.choice([5000, 12000, 16640, 20000, 33280, 41000, 70000, 250000])})
+                     # (0: a session that asks for nothing - it waits, is admitted and leaves like any other)
+                     "req": rng.choice([5000, 12000, 16640, 20000, 33280, 41000, 70000, 250000, 0])})
     sess.sort(key=lambda s: (s["arr"], s["dep"], s["req"]))
     return {"ns": ns, "seed": rng.randint(0, 10 ** 6), "early": rng.random() < 0.7, "sess": sess,
             "sched": ["uncontrolled", "fcfs", "llf"][k % 3], "battery": "ideal" if k % 4 else "2stage",
             "v": 208, "T": 5, "pmax": 16}
 
 
-def record_trace(cfg):
-    """Run the real code with a real random seed. Returns (trace | None if not decisive, network)."""
+def record_trace(cfg, reuse=False):
+    """Run the real code with a real random seed. Returns (trace | None if not decisive, network).
+    reuse: the network object has already served one complete simulation (the same scenario) when the recorded one
+    starts - it is empty again, and an empty network is an empty network."""
     from acnportal.algorithms import UncontrolledCharging, SortedSchedulingAlgo, first_come_first_served, least_laxity_first
     ns = cfg["ns"]
     with warnings.catch_warnings():
@@ -331,6 +334,17 @@ def record_trace(cfg):
         if seed_first:
             random.seed(cfg["seed"])
         net = make_network(ns, cfg["v"], cfg["pmax"], cfg["early"], limit)
+        if reuse:
+            evs0 = make_evs(net, cfg["sess"], lambda i: stn(1 + (i * 7) % ns), cfg["battery"])
+            sim0 = Simulator(net, type(sched)(*(() if cfg["sched"] == "uncontrolled" else (sched._sort_fn,))),
+                             EventQueue([PluginEvent(ev.arrival, ev) for ev in evs0]), datetime(2020, 1, 1), period=cfg["T"],
+                             verbose=False)
+            net.sim = sim0
+            random.seed(cfg["seed"] + 17)
+            sim0.run()
+            net.log, net.problems, net.evs, net.energy_margin = [], [], {}, None
+            if seed_first:
+                random.seed(cfg["seed"])
         evs = make_evs(net, cfg["sess"], lambda i: stn(1 + (i * 7) % ns), cfg["battery"])
         sim = Simulator(net, sched, EventQueue([PluginEvent(ev.arrival, ev) for ev in evs]),
                         datetime(2020, 1, 1), period=cfg["T"], verbose=False)
@@ -554,6 +568,14 @@ def check_C19(tier, seed):
             rep.violation("C19:trace:consistency", net.problems[0],
                           {"kind": "case", "module": "props_stochasticnet", "fn": "replay_trace_case", "case": cfg})
         if k % 5 == 0:       # reproducible under a fixed seed
+            if k % 10 == 0:
+                # ... also on a network object that has served a complete simulation before (who sits where, step by step)
+                used, unet = record_trace(cfg, reuse=True)
+                if unet.crash or used is None or [r.get("occ") for r in used["ev"]] != [r.get("occ") for r in trace["ev"]]:
+                    rep.violation("C19:trace:not-reproducible-on-used-network",
+                                  "same seed and scenario on a network object that was used before: different placement (%s)"
+                                  % (unet.crash or trace["tid"]),
+                                  {"kind": "case", "module": "props_stochasticnet", "fn": "replay_trace_case", "case": cfg})
             again, _ = record_trace(cfg)
             if again is None or json.dumps(again, sort_keys=True) != json.dumps(trace, sort_keys=True):
                 rep.violation("C19:trace:not-reproducible", "same seed, different trace: %s" % trace["tid"],
